@@ -1339,10 +1339,18 @@ class RouteTranslator:
         return coq_list(out)
 
     def expr(self, e):
+        if isinstance(e, ast.Constant) and e.value == 'whatever':
+            return '(RStr "whatever")'
         if self.is_str_expr(e):
             return '(RStr "")'
         if isinstance(e, ast.Name):
             return 'RSelf' if e.id == 'self' else '(RName %s)' % coq_str(e.id)
+        if isinstance(e, ast.Attribute) and e.attr == '_variable_names':
+            return '(RVarNames %s)' % self.expr(e.value)
+        if isinstance(e, ast.Compare) and len(e.ops) == 1 and isinstance(e.ops[0], ast.Eq) \
+                and isinstance(e.comparators[0], ast.Constant) and isinstance(e.comparators[0].value, int) \
+                and not isinstance(e.comparators[0].value, bool):
+            return '(RCmpInt %s (%d)%%Z)' % (self.expr(e.left), e.comparators[0].value)
         if isinstance(e, ast.Constant):
             if e.value is None:
                 return 'RNone'
@@ -1376,6 +1384,16 @@ class RouteTranslator:
                 if f.id == 'isinstance' and len(e.args) == 2 and not e.keywords and isinstance(e.args[1], ast.Attribute) \
                         and e.args[1].attr == 'Point':
                     return '(RIsPoint %s)' % self.expr(e.args[0])
+                if f.id == 'len' and len(e.args) == 1 and not e.keywords:
+                    return '(RLen %s)' % self.expr(e.args[0])
+                if f.id == 'get_the_single_variable_name' and len(e.args) == 2 and not e.keywords:
+                    return '(RSingleName %s)' % self.expr(e.args[0])
+                if f.id == 'Point' and not e.args and len(e.keywords) == 1 and e.keywords[0].arg is None \
+                        and isinstance(e.keywords[0].value, ast.Dict) and len(e.keywords[0].value.keys) == 1 \
+                        and isinstance(e.keywords[0].value.keys[0], ast.Name) and isinstance(e.keywords[0].value.values[0], ast.Name):
+                    # Point(**({variable_name: value}))
+                    return '(RNumberLine (RName %s) (RName %s))' % (coq_str(e.keywords[0].value.keys[0].id),
+                                                                     coq_str(e.keywords[0].value.values[0].id))
                 if f.id.startswith('_'):
                     return '(RHelper %s %s)' % (coq_str(f.id), self.args(e))
                 self.fail('call of a name', e)
@@ -1424,6 +1442,15 @@ class RouteTranslator:
                 return '(RSSetField %s %s)' % (coq_str(t.attr), self.expr(st.value))
         if isinstance(st, ast.Expr) and isinstance(st.value, ast.Call):
             return '(RSExpr %s)' % self.expr(st.value)
+        if isinstance(st, ast.Assign) and len(st.targets) == 1 and isinstance(st.targets[0], ast.Tuple) \
+                and len(st.targets[0].elts) == 1 and isinstance(st.targets[0].elts[0], ast.Name):
+            return '(RSUnpack1 %s %s)' % (coq_str(st.targets[0].elts[0].id), self.expr(st.value))
+        if isinstance(st, ast.Raise) and isinstance(st.exc, ast.Call):
+            f = st.exc.func
+            if isinstance(f, ast.Name) and f.id == 'Exception':
+                return 'RSRaise'
+            if isinstance(f, ast.Attribute) and f.attr == 'CoordinateMissing':
+                return 'RSRaiseCoord'
         self.fail('statement', st)
 
     def function(self, fd, is_method):
@@ -1459,6 +1486,26 @@ def generate_route():
                         tr = RouteTranslator('%s.%s' % (node.name, m.name))
                         lines.append('Definition gen_route_%s_%s : rfun := %s.' % (node.name, m.name.strip('_'), tr.function(m, True)))
                         sigs.append((node.name, m.name, [ast.unparse(d) for d in m.args.defaults]))
+    t = parse(os.path.join(SRC, '_private', 'base_expression', 'expression.py'))
+    for node in t.body:
+        if isinstance(node, ast.FunctionDef) and node.name == 'get_the_single_variable_name':
+            tr = RouteTranslator('expression.get_the_single_variable_name')
+            lines.append('Definition gen_route_fn_get_the_single_variable_name : rfun := %s.' % tr.function(node, False))
+        if isinstance(node, ast.ClassDef) and node.name == 'Expression':
+            for m in methods_of(node):
+                if m.name == 'at':
+                    tr = RouteTranslator('Expression.at')
+                    lines.append('Definition gen_route_Expression_at : rfun := %s.' % tr.function(m, True))
+    t = parse(os.path.join(SRC, '_private', 'point.py'))
+    for node in t.body:
+        if isinstance(node, ast.FunctionDef) and node.name == 'point_on_number_line':
+            tr = RouteTranslator('point.point_on_number_line')
+            lines.append('Definition gen_route_fn_point_on_number_line : rfun := %s.' % tr.function(node, False))
+        if isinstance(node, ast.ClassDef) and node.name == 'Point':
+            for m in methods_of(node):
+                if m.name == 'coordinate':
+                    tr = RouteTranslator('Point.coordinate')
+                    lines.append('Definition gen_route_Point_coordinate : rfun := %s.' % tr.function(m, True))
     lines.append('')
     lines.append('(* owner, function, the default values of its trailing parameters *)')
     lines.append('Definition gen_route_defaults : list (string * string * list string) := ' +
